@@ -12,6 +12,9 @@
    Every schedule ends with a fault-free drain run by the harness (StartDrain, successful reconciles of the
    queued keys, scheduler cycles, until a whole round changes nothing) and a `Quiesced` line: C12_Quiesces
    judges the real final state - an observation that does not depend on model and code staying in lock-step.
+   A SchedCycleRefused step (DELETE of stale requests refused) has no snapshot: OpenSession failed, `obs` stays
+   NoObs and no cycle property is judged on it; what the NEXT cycles do with the request that was left is judged
+   by C12_DeletedNode / C12_FailedCleaned, the end by C12_Quiesces.
    One initial state per Scenario line; `l` = next line, `l0` = line of the Scenario.                       *)
 EXTENDS Handoff
 
@@ -62,7 +65,7 @@ EnabledIn(s, e) ==
     [] e.ev = "SchedCycleRefused" -> RefusedEnabled(s, e.p)
     [] e.ev = "BinderAttempt" -> /\ s.q[e.p]
                                  /\ e.out = "faillabel" => Reach(s, e.p) /\ IsFrac(s, e.p) /\ s.nd[e.p] = 2
-                                 /\ e.out = "panic" => Reach(s, e.p)
+                                 /\ e.out = "panic" => PanicEnabled(s, e.p)
     [] e.ev = "BindDoneStatusLost" -> StatusLostEnabled(s, e.p)
     [] e.ev = "BinderCrashAfterLabel" -> CrashEnabled(s, e.p)
     [] e.ev = "BinderRestart" -> \E p \in Pods : s.br[p].ex /\ ~s.q[p]
